@@ -397,7 +397,11 @@ func pureCallee(c *ssa.CallCommon) bool {
 	if f == nil {
 		return false
 	}
-	if f.Blocks == nil || f.Pkg == nil || !strings.HasPrefix(f.Pkg.Pkg.Path(), modPath) {
+	pkg := f.Pkg
+	if pkg == nil && f.Origin() != nil {
+		pkg = f.Origin().Pkg // an instance of a generic function
+	}
+	if f.Blocks == nil || pkg == nil || !strings.HasPrefix(pkg.Pkg.Path(), modPath) {
 		n := calleeName(c)
 		for _, p := range pureLibPrefixes {
 			if strings.HasPrefix(n, p) {
